@@ -13,6 +13,8 @@ TEMPLATES = {
     't3': ['Total: $$', 0, '.00 {x} $ }'],
     't4': ['<?xml version="1.0"?>\n', 0, '&lt;'],
     't5': [0, '<![CDATA[', 0, ']]>'],
+    # ['expr', source, value]: a constant expression rich in braces/quotes/$
+    't6': [['expr', "'{' + \"}\" + '$'", '{}$'], '|', 0, ['expr', "{'k': '}'}['k']", '}']],
 }
 
 
@@ -67,7 +69,8 @@ def prepare(cfg):
         _mutate(cfg['mutant'])
     if cfg.get('template'):
         shape = TEMPLATES[cfg['template']]
-        text = ''.join('${v}' if isinstance(p, int) else p for p in shape)
+        text = ''.join('${v}' if isinstance(p, int) else ('${' + p[1] + '}' if isinstance(p, list) else p)
+                       for p in shape)
         STATE['tpl'] = PageTextTemplate(text)
         STATE['shape'] = shape
 
@@ -122,7 +125,9 @@ def render(c0: int, c1: int, c2: int, c3: int) -> bool:
     got = STATE['tpl'].render(v=val)
     want = ''
     for p in STATE['shape']:
-        if isinstance(p, int):
+        if isinstance(p, list):
+            want = want + p[2]
+        elif isinstance(p, int):
             want = want + ('' if val is None else v)
         else:
             want = want + p.replace('$$', '$')
